@@ -32,8 +32,8 @@ import (
 type nopTele struct{}
 
 func (nopTele) CreateUpdateObservableHistogram(name, description string) {}
-func (nopTele) RecordHistogramTime(name string, t time.Duration) bool   { return true }
-func (nopTele) RecordHistogramValue(name string, f float64) bool        { return true }
+func (nopTele) RecordHistogramTime(name string, t time.Duration) bool    { return true }
+func (nopTele) RecordHistogramValue(name string, f float64) bool         { return true }
 
 // PeerStub is a gossip peer played by the harness.
 type PeerStub struct {
@@ -185,6 +185,28 @@ type State struct {
 	Snap  *ledger.Snap
 	Rest  string
 	Whole string
+	// Await: awaiting cache entries as "address|transaction hash"; Peers: the rendered peer table
+	Await map[string]bool
+	Peers string
+}
+
+// OnlyAwaitingRemoved reports whether b differs from a only by awaiting cache entries that disappeared, and lists them.
+func OnlyAwaitingRemoved(a, b *State) (bool, []string) {
+	if a.Snap.Digest() != b.Snap.Digest() || a.Peers != b.Peers {
+		return false, nil
+	}
+	for k := range b.Await {
+		if !a.Await[k] {
+			return false, nil
+		}
+	}
+	var gone []string
+	for k := range a.Await {
+		if !b.Await[k] {
+			gone = append(gone, k)
+		}
+	}
+	return len(gone) > 0, gone
 }
 
 func (r *Rig) State(addresses []string) (*State, error) {
@@ -194,11 +216,13 @@ func (r *Rig) State(addresses []string) (*State, error) {
 	}
 	s.Parked = nil
 	h := sha256.New()
+	await := map[string]bool{}
 	for _, a := range addresses {
 		trxs, _ := r.Cache.ReadTransactions(a)
 		var hs []string
 		for _, t := range trxs {
 			hs = append(hs, ledger.HexFull(t.Hash))
+			await[a+"|"+ledger.HexFull(t.Hash)] = true
 		}
 		sort.Strings(hs)
 		fmt.Fprintf(h, "|A%s:%v", a, hs)
@@ -211,7 +235,7 @@ func (r *Rig) State(addresses []string) (*State, error) {
 	sort.Strings(ps)
 	fmt.Fprintf(h, "|P%v", ps)
 	rest := fmt.Sprintf("%x", h.Sum(nil))
-	return &State{Snap: s, Rest: rest, Whole: s.Digest() + rest}, nil
+	return &State{Snap: s, Rest: rest, Whole: s.Digest() + rest, Await: await, Peers: fmt.Sprint(ps)}, nil
 }
 
 // SameOrOnlyTipsDropped reports whether b equals a, or differs only by tentative tips (and their index entries) that were removed.
